@@ -968,6 +968,9 @@ def c15(stream, scen=None):
         parts_now = parts_of(f.state) if f.now is not None else {}
         for rec in f.recs:
             t = rec.split()
+            if 'not-stored(' in t[-1]:
+                # the runner watches every add_datapoint call: exactly one record per occurrence
+                wit.append(f'frame {i} (t={f.now}): a datapoint was handed to add_datapoint but its series did not grow by exactly this one entry: {rec}')
             if t[0] == 'level':
                 last_level[int(t[1])] = int(t[3])
                 if f.now is not None and int(t[2]) != f.now:
